@@ -61,6 +61,10 @@ fn main() {
                     world::install_seq_hooks();
                     props::c12::run(tier)
                 }
+                "C18" => {
+                    world::install_seq_hooks();
+                    props::c18::run(tier)
+                }
                 "C06" => props::c06::run(tier),
                 other => {
                     eprintln!("unknown property {other}");
@@ -110,6 +114,10 @@ fn main() {
                 "C12" => {
                     world::install_seq_hooks();
                     props::c12::replay(&v)
+                }
+                "C18" => {
+                    world::install_seq_hooks();
+                    props::c18::replay(&v)
                 }
                 "C06" => props::c06::replay(&v),
                 other => {
